@@ -214,6 +214,9 @@ structure St where
   watcherSpentPending : Nat := 0
   watcherDiffering : Nat := 0
   watcherResolutionChecks : Nat := 0
+  boot : String := "link"
+  restartCases : Nat := 0
+  relinks : Nat := 0
 
 def St.env (s : St) : Env :=
   { preimageKnown := fun h => s.pre.contains h || s.perr.contains h, isForwarded := fun i => s.fwd.contains i,
@@ -573,7 +576,7 @@ def step (s : St) (line : String) : IO St := do
       | some "dataloss" => FcErr.dataLoss | some "other" => .other | _ => .none
     let s := { s with caseId := id, kind := kind, dout := (kvNat? rest "dout").getD 0,
                       din := (kvNat? rest "din").getD 0, grace := kvNat? rest "grace" == some 1,
-                      ppresent := kvNat? rest "ppresent" == some 1, fcErr := fc,
+                      ppresent := kvNat? rest "ppresent" == some 1, fcErr := fc, boot := (kv? rest "boot").getD "link",
                       rawL := [], rawR := [], rawP := [], fwd := [], pre := [], perr := [],
                       dumpL := [], dumpR := [], dumpP := [], spent := none,
                       watcherCases := s.watcherCases + (if kind == "watcher" then 1 else 0),
@@ -588,6 +591,28 @@ def step (s : St) (line : String) : IO St := do
     | some ("R", h) => return { s with rawR := s.rawR ++ [h] }
     | some ("P", h) => return { s with rawP := s.rawP ++ [h] }
     | _ => mismatch s s!"unparsed H line: {line.take 80}"
+  | "UPD" :: rest =>
+    match kv? rest "s" with
+    | some "L" => return { s with rawL := [] }
+    | some "R" => return { s with rawR := [] }
+    | some "P" => return { s with rawP := [] }
+    | _ => mismatch s s!"unparsed UPD line: {line.take 80}"
+  | "U" :: rest =>
+    match parseHtlc rest with
+    | some ("L", h) => return { s with rawL := s.rawL ++ [h] }
+    | some ("R", h) => return { s with rawR := s.rawR ++ [h] }
+    | some ("P", h) => return { s with rawP := s.rawP ++ [h] }
+    | _ => mismatch s s!"unparsed U line: {line.take 80}"
+  | "relink" :: _ =>
+    -- a link update while running: nothing happens now, the sets to consider change
+    let rw := resultWords ws
+    let implSt := (kv? rw "st").getD "?"
+    let a := linkUpdate (linkUpdate (linkUpdate s.arb .loc s.rawL) .rem s.rawR) .pend
+                (if s.ppresent then s.rawP else [])
+    let mut s := { s with ops := s.ops + 1, arb := a, relinks := s.relinks + 1 }
+    if implSt != stateTag a.state || (kvNat? rw "fc").getD 0 != 0 || (kv? rw "fails").getD "-" != "-" then
+      s ← mismatch s s!"relink: impl={implCore ws} model=st={stateTag a.state}, nothing else"
+    return s
   | "D" :: rest =>
     match parseHtlc rest with
     | some ("L", h) => return { s with dumpL := s.dumpL ++ [h] }
@@ -751,8 +776,10 @@ def step (s : St) (line : String) : IO St := do
     -- (X) correspondence
     let mut s := s
     if opName == "start" then
-      s := { s with arb := { s.arb with active := { loc := s.sets.loc, rem := s.sets.rem,
-                                                    pend := if s.ppresent then s.sets.pend else {} } } }
+      -- whichever way the sets reached the arbitrator (NewChannelArbitrator at a restart, link
+      -- updates, or both), this is what it has to consider from now on
+      s := { s with arb := startUp s.rawL s.rawR (if s.ppresent then some s.rawP else none) s.fcErr,
+                    restartCases := s.restartCases + (if s.boot != "link" then 1 else 0) }
       let a := s.arb
       s ← arbCompare s "start" implStr fun pl => advanceE env s.err a height .chain none pl advanceFuel
     else if opName == "block" then
@@ -878,6 +905,8 @@ def main (args : List String) : IO Unit := do
   IO.println s!"STAT must_go_dangling_only_checks={s.danglingMustGoChecks}"
   IO.println s!"STAT hard_lookup_error_cases={s.lookupErrCases}"
   IO.println s!"STAT chain_action_errors={s.chainActionErrors}"
+  IO.println s!"STAT arb_restart_cases={s.restartCases}"
+  IO.println s!"STAT arb_link_updates_while_running={s.relinks}"
   IO.println s!"STAT watcher_cases={s.watcherCases}"
   IO.println s!"STAT watcher_spent_local={s.watcherSpentLocal}"
   IO.println s!"STAT watcher_spent_remote={s.watcherSpentRemote}"
